@@ -101,3 +101,52 @@ func txIDProbe(o *drv.Out) {
 			map[string]any{"steps": steps})
 	}
 }
+
+// subsidyTxProbe: the same through the real transaction path (CheckTx: CheckMessage -> msg.Check, fee, signature; then
+// HandleMessage): a signed MessageSubsidy whose ChainId is chain 2's escrow pool id is ACCEPTED and credits that pool.
+func subsidyTxProbe(o *drv.Out) {
+	o.Case("subsidy-tx-probe")
+	e, err := NewEnv(1, 1, 0)
+	if err != nil {
+		panic(err)
+	}
+	defer e.Close()
+	e.SM.VerifSetHeight(3)
+	pk, kerr := crypto.StringToBLS12381PrivateKey("01553a101301cd7019b78ffa1186842dd93923e563b8ae22e2ab33ae889b23ee")
+	if kerr != nil {
+		panic(kerr)
+	}
+	sender := pk.PublicKey().Address()
+	feeParams, perr := e.SM.GetParamsFee()
+	if perr != nil {
+		panic(perr)
+	}
+	fee := feeParams.SubsidyFee
+	if st := e.Apply(func() lib.ErrorI { return e.SM.AccountAdd(sender, 1_000_000+fee) }); st != "ok" {
+		panic(st)
+	}
+	const chain = uint64(2)
+	msg := &fsm.MessageSubsidy{Address: sender.Bytes(), ChainId: chain + escrowAdd, Amount: 777}
+	a, aerr := lib.NewAny(msg)
+	if aerr != nil {
+		panic(aerr)
+	}
+	tx := &lib.Transaction{MessageType: msg.Name(), Msg: a, CreatedHeight: 3, Time: 1_700_000_000_000_001, Fee: fee, NetworkId: uint64(e.SM.NetworkID), ChainId: 1}
+	if serr := tx.Sign(pk); serr != nil {
+		panic(serr)
+	}
+	raw, merr := lib.Marshal(tx)
+	if merr != nil {
+		panic(merr)
+	}
+	st := e.Apply(func() lib.ErrorI { _, _, err := e.SM.ApplyTransaction(0, raw, crypto.HashString(raw), nil); return err })
+	snap, _ := e.Snapshot([]uint64{chain})
+	sum, _ := snap.openOrders(chain)
+	esc := snap.pool(chain + escrowAdd).Amount
+	o.Count("subsidy-tx-probe:ApplyTransaction:" + st)
+	o.Extra["subsidy_tx_probe"] = fmt.Sprintf("signed MessageSubsidy{ChainId: %d (= chain %d + EscrowPoolAddend), Amount: 777} through ApplyTransaction: %s; escrow pool of chain %d now %d, open sell orders %s", chain+escrowAdd, chain, st, chain, esc, sum)
+	if st == "ok" && new(big.Int).SetUint64(esc).Cmp(sum) != 0 {
+		o.Fail("C20:escrow-ne-open-orders:subsidy-to-pool-id", fmt.Sprintf("a signed MessageSubsidy with ChainId = %d (chain %d's escrow pool id) was accepted by ApplyTransaction: escrow pool %d, open sell orders %s", chain+escrowAdd, chain, esc, sum),
+			map[string]any{"tx": fmt.Sprintf("%x", raw), "steps": []string{"fund sender", "ApplyTransaction(signed MessageSubsidy{ChainId: 65537, Amount: 777})"}})
+	}
+}
